@@ -250,3 +250,129 @@ def r_unbound_c17(repo, tier):
 def r_dupkey_c17(repo, tier):
     mods = [m.name for m in repo.modules.values() if m.name.startswith("amoco.arch.") or m.name in ("amoco.cas.expressions", "amoco.cas.mapper")]
     return N.r_dupkey(repo, mods)
+
+
+# ======================================================================================= attributes of the instruction object
+def r_objattr_c17(repo, tier):
+    """reads of instruction attributes in semantics / formatters vs what the decoder of the same cpu can have set"""
+    import ast
+    from ..ispecmodel import cpu_table
+    from ..index import norm
+    from .spec import spec_includes, specs
+    from ..callgraph import CallGraph
+    from ..harness import RuleOut
+
+    out = RuleOut(
+        "R-OBJATTR",
+        "per cpu module: an attribute read on the instruction parameter of a semantic function i_M (M a mnemonic some spec of the cpu "
+        "can produce) or of a spec setup function exists -- it is an attribute/method of the instruction classes of arch/core.py or "
+        "of the cpu's own instruction class, a '.field' / keyword attribute of some spec of the cpu, or is stored (obj.X = ...) by "
+        "some setup function or helper of the cpu's spec modules; otherwise applying / decoding raises AttributeError",
+    )
+    cg = CallGraph(repo)
+    cpus = cpu_table(repo)
+    dead = dead_cpus(repo)
+    ext = spec_includes(repo)
+    decls, _ = specs(repo)
+    by_mod = {}
+    for s in decls:
+        by_mod.setdefault(s.func.mod.name, []).append(s)
+    core = repo.mod("amoco/arch/core.py")
+    base = set()
+    for cn in ("icore", "instruction"):
+        c = core.classes.get(cn)
+        if c is None:
+            raise AnalysisError("R-OBJATTR: class %s vanished from arch/core.py" % cn)
+        base |= set(c.methods)
+        for f in c.methods.values():
+            for n in ast.walk(f.node):
+                if isinstance(n, ast.Attribute) and isinstance(n.value, ast.Name) and n.value.id == "self" and isinstance(n.ctx, ast.Store):
+                    base.add(n.attr)
+        for s in c.node.body:
+            if isinstance(s, ast.Assign):
+                for t in s.targets:
+                    if isinstance(t, ast.Name):
+                        base.add(t.id)
+    base |= {"__class__", "__dict__"}
+    INS = ("i", "ins", "obj", "instr", "insn", "instruction")
+    nreads = 0
+    for cname, ent in sorted(cpus.items()):
+        if cname in dead:
+            continue
+        sms = set()
+        for sm in ent["specmods"]:
+            if sm:
+                sms.add(sm)
+                sms |= ext.get(sm, set())
+        W = set(base)
+        mnems = set()
+        dynamic_mnemonic = False
+        hookfuncs = {}
+        for sm in sms:
+            for s in by_mod.get(sm, []):
+                W |= s.attrs()
+                if s.mnemonic:
+                    mnems.add(s.mnemonic)
+                hookfuncs[s.func.key] = s.func
+        # helpers of the spec modules and of the package's utils that receive the instruction
+        helpers = dict(hookfuncs)
+        for f in list(cg.reachable(list(hookfuncs.values())).values()):
+            if f.mod.name.startswith("amoco.arch."):
+                helpers[f.key] = f
+        for f in helpers.values():
+            ps = f.params()
+            for n in ast.walk(f.node):
+                if isinstance(n, ast.Attribute) and isinstance(n.ctx, ast.Store) and isinstance(n.value, ast.Name) and n.value.id in ps[:2] + list(INS):
+                    W.add(n.attr)
+                    if n.attr == "mnemonic":
+                        pass
+                if isinstance(n, ast.Call) and isinstance(n.func, ast.Name) and n.func.id == "setattr" and len(n.args) >= 2:
+                    if isinstance(n.args[1], ast.Constant):
+                        W.add(n.args[1].value)
+                    else:
+                        W.add("*")
+                if isinstance(n, ast.Assign) and any(isinstance(t, ast.Attribute) and t.attr == "mnemonic" for t in n.targets):
+                    vals = [k.value for k in ast.walk(n.value) if isinstance(k, ast.Constant) and isinstance(k.value, str)]
+                    if vals and not any(isinstance(k, (ast.Name, ast.Subscript, ast.Call)) for k in ast.walk(n.value) if not isinstance(k, ast.Constant)):
+                        mnems |= set(vals)
+                    else:
+                        mnems |= set(vals)
+                        dynamic_mnemonic = True
+        # the cpu's own instruction class (class X(instruction) in the cpu module / its imports)
+        cm = repo.modules[cname]
+        for c in repo.all_classes():
+            if c.mod.name == cname or c.mod.name in sms or c.mod.name.rpartition(".")[0] == cname.rpartition(".")[0]:
+                if any(b in ("instruction", "icore") for b in c.bases if b):
+                    W |= set(c.methods)
+                    for f in c.methods.values():
+                        for n in ast.walk(f.node):
+                            if isinstance(n, ast.Attribute) and isinstance(n.value, ast.Name) and n.value.id == "self" and isinstance(n.ctx, ast.Store):
+                                W.add(n.attr)
+        if "*" in W:
+            continue
+        # readers: hooks+helpers (always), semantics of decodable mnemonics
+        readers = dict(helpers)
+        for name in sorted(repo.namespace(cname)):
+            if name.startswith("i_") and name[2:] in mnems:
+                t = cg.resolve_name(cm, name)
+                if t is not None and not isinstance(t, tuple) and not hasattr(t, "methods"):
+                    readers[t.key] = t
+        for f in readers.values():
+            ps = f.params()
+            if not ps or ps[0] not in INS:
+                continue
+            o = ps[0]
+            if any(isinstance(n, ast.Name) and n.id == o and isinstance(n.ctx, ast.Store) for n in ast.walk(f.node)):
+                continue
+            guarded = {n.args[1].value for n in ast.walk(f.node) if isinstance(n, ast.Call) and isinstance(n.func, ast.Name) and n.func.id in ("hasattr", "getattr") and len(n.args) >= 2 and isinstance(n.args[1], ast.Constant)}
+            for n in ast.walk(f.node):
+                if isinstance(n, ast.Attribute) and isinstance(n.value, ast.Name) and n.value.id == o and isinstance(n.ctx, ast.Load):
+                    nreads += 1
+                    if n.attr in W or n.attr in guarded:
+                        continue
+                    out.report(f.file, f.dqual, "%s.%s" % (o, n.attr), n.lineno, "%s reads the instruction attribute `%s`, which no spec field, keyword attribute or setup function of %s ever sets and which the instruction classes do not define: AttributeError when this instruction is %s" % (f.dqual, n.attr, cname, "applied to a map" if f.dqual.startswith("i_") else "decoded"), detail={"cpu": cname})
+        out.inst(cname, {"cpu": cname, "settable_attributes": len(W), "mnemonics": len(mnems), "readers": len(readers)})
+    out.stats["attribute_reads"] = nreads
+    if nreads < 2000:
+        raise AnalysisError("R-OBJATTR: only %d attribute reads analysed" % nreads)
+    return out
